@@ -358,8 +358,10 @@ class RefModel:
         tot = {kk: 0.0 for kk in self.integrands}
         uq = {s["name"]: np.zeros(_shape_of(s)) for s in self.qstates}
         Qnode = [{n: v.copy() for n, v in uq.items()}]
+        self._dc_qsub = []
         for k in range(self.N):
             for i in range(self.M):
+                self._dc_qsub.append({n: v.copy() for n, v in uq.items()})
                 Xc, Z, tr, h, _ = self.dc_interval(k, i)
                 for j in range(self.d):
                     env = self.dc_root_env(k, i, j, Xc, Z, tr)
